@@ -116,6 +116,24 @@ def simulate_scripts(work, cfgname, module, num, depth, sd, workers=8, timeout=6
     return scripts
 
 
+def edge_scripts(work, module, cfg, tag, workers=4, timeout=900):
+    """Every transition of a bounded model, dumped by TLC (Edges_*.tla), covered by walks of the quotient graph."""
+    import planner
+    rc, out = tlc(work, module, cfg, workers=workers, timeout=timeout)
+    vers, edges = planner.parse_edges(out)
+    if not vers or not edges:
+        raise Infra("TLC edge dump produced nothing (%s):\n%s" % (cfg, out[-2000:]))
+    plans, stats = planner.plan(vers, edges)
+    scripts = []
+    for i, pl in enumerate(plans):
+        init = [{"op": "init", "p": p + 1, "v": v} for p, v in enumerate(pl["cfg"])]
+        obj = {"np": len(pl["cfg"]), "vers": json.loads(json.dumps(vers)), "steps": init + pl["steps"]}
+        scripts.append(convert_script(obj, "%s-%05d" % (tag, i + 1), "edge cover of %s" % cfg))
+    stats["config"] = cfg
+    stats["scripts"] = len(scripts)
+    return scripts, stats
+
+
 def hand_scripts():
     out = []
     for f in sorted(glob.glob(os.path.join(VERIF, "scripts", "*.ndjson"))):
@@ -289,9 +307,11 @@ def model_check(work, cfgs, workers=8, timeout=1500):
 
 TIERS = {
     "quick": {"sim": [("Sim_Core.tla", "Sim_Core.cfg", 480, 200), ("Sim_Life.tla", "Sim_Life.cfg", 320, 200)],
-              "mc": [("MC_Core.tla", "MC_Core.cfg")]},
+              "edges": [("Edges_Sched.tla", "Edges_Sched.cfg", "esched")],
+              "mc": [("MC_Core.tla", "MC_Core.cfg"), ("MC_Sched.tla", "MC_Sched.cfg")]},
     "thorough": {"sim": [("Sim_Core.tla", "Sim_Core.cfg", 6000, 300), ("Sim_Life.tla", "Sim_Life.cfg", 4000, 300)],
-                 "mc": [("MC_Core.tla", "MC_Core.cfg"), ("MC_Core.tla", "MC_Core3.cfg"), ("MC_Life.tla", "MC_Life.cfg")]},
+                 "edges": [("Edges_Sched.tla", "Edges_Sched.cfg", "esched"), ("Edges_Core.tla", "Edges_Core.cfg", "ecore")],
+                 "mc": [("MC_Core.tla", "MC_Core.cfg"), ("MC_Sched.tla", "MC_Sched.cfg"), ("MC_Core.tla", "MC_Core3.cfg"), ("MC_Life.tla", "MC_Life.cfg")]},
 }
 
 
@@ -310,6 +330,13 @@ def engine(tier):
         with scratch("verif-e1-") as work:
             copy_specs(work)
             scripts = hand_scripts()
+            edge_stats = []
+            for module, cfg, tag in TIERS[tier].get("edges", []):
+                if not os.path.exists(os.path.join(work, cfg)):
+                    continue
+                es, stt = edge_scripts(work, module, cfg, tag)
+                scripts += es
+                edge_stats.append(stt)
             for module, cfg, num, depth in TIERS[tier]["sim"]:
                 if not os.path.exists(os.path.join(work, cfg)):
                     continue
@@ -326,7 +353,7 @@ def engine(tier):
                 f.write(json.dumps(sc) + "\n")
         steps = sum(len(s["steps"]) for s in scripts)
         res = {"tier": tier, "seed": seed(), "scripts": len(scripts), "steps": steps, "traces": traces, "crashes": crashes,
-               "mc": mc, "t_gen": round(t1 - t0, 1), "t_exec": round(t2 - t1, 1), "t_mc": round(time.time() - t2, 1)}
+               "mc": mc, "edge_cover": edge_stats, "t_gen": round(t1 - t0, 1), "t_exec": round(t2 - t1, 1), "t_mc": round(time.time() - t2, 1)}
         with open(os.path.join(d, "result.json"), "w") as f:
             json.dump(res, f, indent=1)
         # keep the cache small: only the newest few engine results
